@@ -241,6 +241,12 @@ func (s *StatsCtx) Start() {
 
 // Close implements the [io.Closer] interface for *StatsCtx.
 func (s *StatsCtx) Close() (err error) {
+	// Take the configuration lock first, like flush and the readers of the
+	// database do, so that the database transaction below and a unit flush
+	// that is already in progress can't wait for each other.
+	s.confMu.Lock()
+	defer s.confMu.Unlock()
+
 	db := s.db.Swap(nil)
 	if db == nil {
 		return nil
